@@ -46,11 +46,13 @@ impl<'a> DocGen<'a> {
             1 => format!("[[{}|{}]]", dest, text),
             2 => format!("[{}]({} \"{}\")", text, dest, self.word()),
             3 => format!("[*{}*]({})", text, dest),
-            4 => match self.rng.below(6) {
+            4 => match self.rng.below(7) {
                 0 => format!("[{}](<{}>)", text, dest),
                 1 => format!("[{}]( {} )", text, dest),
                 // the destination may start the next line
                 5 => format!("[{}](\n{})", text, dest),
+                // an ordinary link whose text begins with a bracket (a tag in front of a title)
+                6 => format!("[[WIP] {}]({})", text, dest),
                 2 => format!("[**{}** `{}`]({})", text, self.word(), dest),
                 3 => format!("[![{}](img/{}.png) {}]({})", self.word(), self.n, text, dest),
                 _ => format!("[{} \\[x\\]]({})", text, dest),
